@@ -76,6 +76,50 @@ class PoolInterp(Interp):
                 pass
 
 
+class PoolClsInterp(K.ClsInterp):
+    """class programs evaluated with one shared instance per distinct class-valued sub-expression"""
+
+    def __init__(self, *a, **kw):
+        super().__init__(*a, **kw)
+        self.pool = {}
+        self.first_snap = {}
+        self.reused = 0
+        self.abuse_rnd = random.Random(7)
+
+    def ev(self, t):
+        if t.get('o') in ('chr', 'tokv', 'bad', 'frombad', 'btwbad'):
+            return super().ev(t)
+        key = json.dumps(t, sort_keys=True, ensure_ascii=True)
+        hit = self.pool.get(key)
+        if hit is not None:
+            self.reused += 1
+            return hit
+        r, m = super().ev(t)
+        if isinstance(r, Pregex):
+            self.pool[key] = (r, m)
+            self.first_snap[key] = snapshot(r)
+            k = self.abuse_rnd.randrange(5)
+            try:
+                if k == 0:
+                    r.compile()
+                elif k == 1:
+                    r.has_match('abc_-')
+                elif k == 2:
+                    (r + 'x').get_matches('ax')
+                elif k == 3:
+                    r.exactly(1).get_compiled_pattern(False)
+            except Exception:
+                pass
+        return r, m
+
+
+def cls_fp(status, events, text):
+    last = events[-1] if events else {}
+    if status == 'done' and text is not None and C.set_of_single(text) is not None:
+        return hashlib.blake2b(repr(C.unmask(C.set_of_single(text))).encode(), digest_size=6).hexdigest()
+    return 'exc:' + str(last.get('symptom') or last.get('verdict'))
+
+
 def fp_of(status, text):
     if status != 'done' or text is None:
         return 'status:' + status
@@ -161,8 +205,10 @@ def run_shard(ctx):
     # classes: same regime (fresh vs one shared instance per distinct sub-expression)
     KI = K.ClsInterp(seed)
     KI.scan_sample = False
-    cpool = {}
+    PK = PoolClsInterp(seed)
+    PK.scan_sample = False
     cprogs = class_programs(tier, seed, part, nparts)
+    ccompared = 0
     for idx, prog in enumerate(cprogs):
         if time.time() - t0 > budget:
             truncated = True
@@ -174,20 +220,30 @@ def run_shard(ctx):
             keys.add(K.key_of(e))
             if e['verdict'] == 'viol' and e['symptom'] == 'mutated-operand':
                 report('mutated-operand', e['detail'], {'kind': 'hist-cls', 'prog': prog}, K.show(prog))
-        last = events[-1] if events else None
-        if status == 'done' and text is not None and C.set_of_single(text) is not None:
-            fp = hashlib.blake2b(repr(C.unmask(C.set_of_single(text))).encode(), digest_size=6).hexdigest()
-        else:
-            fp = 'exc:' + str((last or {}).get('symptom') or (last or {}).get('verdict'))
+        fp = cls_fp(status, events, text)
         fps['c%d/%d' % (part, idx)] = fp
         textfp['c%d/%d' % (part, idx)] = hashlib.blake2b((text or '').encode('utf-8', 'surrogatepass'), digest_size=4).hexdigest()
+        # the same program from shared, already-used class objects
+        st2, ev2, t2, m2 = PK.run(prog)
+        evaluations += len(ev2)
+        fp2 = cls_fp(st2, ev2, t2)
+        ccompared += 1
+        fresh_clean = not any(e['verdict'] == 'viol' for e in events)
+        if fresh_clean and fp2 != fp:
+            report('history-dependent', 'class expression %s: fresh build denotes %s (%r), build from reused class objects denotes %s (%r)' %
+                   (K.show(prog), fp, text, fp2, t2), {'kind': 'hist-cls', 'prog': prog, 'history': True}, K.show(prog))
+    for key, (r, m) in PK.pool.items():
+        if snapshot(r) != PK.first_snap[key]:
+            changed += 1
+            report('mutated-operand', 'pooled class object %s changed over the shard' % key[:80], {'kind': 'hist-cls', 'prog': json.loads(key)}, key[:100])
     return {
         'evaluations': evaluations, 'cases': ncases, 'keys': sorted(keys), 'violations': viols, 'viol_counts': dict(nviol),
         'other_property_violations': {}, 'stats': {k: v for k, v in I.stats.items() if k in ('struct', 'probes', 'unspec', 'exc-ok', 'timeout')},
         'by_op': dict(I.by_op), 'samples': samples, 'monitor_errors': [], 'timeouts': I.stats.get('timeout', 0) + P.stats.get('timeout', 0),
         'truncated': truncated, 'fingerprints': fps, 'text_fingerprints': textfp,
         'extra': {'fresh_vs_pooled_compared': compared, 'pool_objects': len(P.pool), 'pool_reuses': P.reused,
-                  'pool_objects_changed': changed, 'abuse_ops': sum(P.abuses.values())},
+                  'pool_objects_changed': changed, 'abuse_ops': sum(P.abuses.values()),
+                  'class_fresh_vs_pooled_compared': ccompared, 'class_pool_objects': len(PK.pool), 'class_pool_reuses': PK.reused},
     }
 
 
@@ -282,10 +338,31 @@ def replay(case, check, seed=0):
                 out.append({'symptom': 'mutated-operand', 'detail': 'pooled object %s changed' % key[:80], 'event': {}, 'sig': 'mutated-operand'})
     elif kind == 'hist-cls':
         KI = K.ClsInterp(seed)
+        KI.scan_sample = False
         status, events, text, m = KI.run(case['prog'])
         for e in events:
             if e['verdict'] == 'viol' and e['symptom'] == 'mutated-operand':
                 out.append({'symptom': 'mutated-operand', 'detail': e['detail'], 'event': e, 'sig': 'mutated-operand'})
+        if case.get('history'):
+            # rebuild the history: the deterministic class program list up to (and including) this program, through one pool
+            PK = PoolClsInterp(seed)
+            PK.scan_sample = False
+            fp = cls_fp(status, events, text)
+            seen = False
+            for tier_ in ('quick',):
+                for part in range(4):
+                    for prog in class_programs(tier_, seed, part, 4):
+                        st2, ev2, t2, m2 = PK.run(prog)
+                        if prog == case['prog']:
+                            seen = True
+                            if cls_fp(st2, ev2, t2) != fp:
+                                out.append({'symptom': 'history-dependent', 'detail': 'fresh %r vs from reused objects %r' % (text, t2), 'event': {},
+                                            'sig': 'history-dependent'})
+                            break
+                    if seen:
+                        break
+                if seen:
+                    break
     elif kind == 'hist-cross' and 'prog' in case:
         import os, subprocess, sys
         fps = {}
